@@ -183,6 +183,22 @@ PROPS = {
         ],
         "assumptions": ["terms containing negative literals are outside the property (the parser never produces them)"],
     },
+    "C15": {
+        "level": "proof",
+        "streams": ["C15"],
+        "rule": "(a) listing(): random multi-line texts (indentation, tabs, CR, trailing blanks, 2- and 3-byte characters, empty lines) with "
+                "ranges as diagnostics produce them (from a non-blank character to the end of a non-blank character, and the empty range at "
+                "the end), rendered output compared bytewise with the rendering of the Coq model; (b) generated programs re-laid-out over "
+                "several lines after 0-3 comment/blank lines: every node range of the parser's output must run over whole tokens and its "
+                "text, re-parsed by the extracted parser + scope specification in the node's scope, must be that node; (c) the same programs "
+                "with one word replaced by an unbound name / ill-typed literal / illegal symbol: the excerpt of each scoping, typing or "
+                "lexing diagnostic is parsed back and must quote the right lines and mark exactly the identifier, a subexpression node, or "
+                "the symbol. Non-trivial: at least one line shown / node / diagnostic; distinct by text.",
+        "trusted_base": TB_COMMON + [
+            "modelled, not verified: `listing` is mirrored by hand (coq/Model/Listing.v) and tied to the code by the rendering comparison; the excerpt parser and renderer in ocaml/c15.ml are glue",
+        ],
+        "assumptions": ["ranges that no diagnostic produces (e.g. ending inside the indentation of a continuation line, where `listing` would slice backwards) are outside the property and not generated"],
+    },
 }
 
 NOT_APPLICABLE = {}
@@ -296,5 +312,14 @@ MANIFEST_TEXT = {
         "design_ref": "DESIGN.md section 4, C16; section 5 D12, D13",
         "note": "A failure is attributed to D12 only if the term contains an implicit function type with unused variable and the implementation printed exactly what the model prints.",
         "technique": "metamorphic round-trip on the implementation (exhaustive parent x child positions) + Coq printer model differential testing + generated partition obligation",
+    },
+    "C15": {
+        "text": "Proved for the listing model: the lines shown are exactly those intersecting the range, numbered from 1, and marked sections "
+                "stay inside the trimmed line; the model's rendering (gutter, overline column counted in characters) is compared bytewise "
+                "with the implementation's. Node ranges and diagnostic excerpts are validated on the implementation with the extracted "
+                "parser/scope specification as re-parser. One genuine violation is a recorded finding (D17).",
+        "design_ref": "DESIGN.md section 4, C15; section 5 D10, D11, D17",
+        "note": "Type diagnostics are required to mark the text of SOME subexpression node of the program (the exact node depends on the checker's rule).",
+        "technique": "Coq proof on the listing model + rendering differential testing + re-parse-in-scope oracle on every node range + excerpt parse-back on single-fault programs",
     },
 }
